@@ -142,3 +142,26 @@ func c04Embedded() {
 		}
 	}
 }
+
+// long lists: the decoders allocate at most maxPreallocatedElems (1024) elements up front and grow while decoding
+func c04LongLists() {
+	t := ttyFromSx(parseSx("(struct (f 1 0 (list i64)) (f 2 0 (list str)) (f 3 0 i32))"))
+	sizes := []int{1023, 1024, 1025, 2048, 2049, 5000}
+	if *tier != "thorough" {
+		sizes = []int{1024, 1025, 2049}
+	}
+	for _, n := range sizes {
+		l1 := &tval{k: tList}
+		l2 := &tval{k: tList}
+		for i := 0; i < n; i++ {
+			l1.elems = append(l1.elems, &tval{k: tI64, i: int64(i+1) * 7919})
+			if i < n/3+2 {
+				l2.elems = append(l2.elems, &tval{k: tStr, s: []byte(fmt.Sprintf("s%d", i))})
+			}
+		}
+		v := &tval{k: tStruct, elems: []*tval{l1, l2, {k: tI32, i: int64(n)}}}
+		for _, p := range tprotos {
+			tRoundTrip(t, v, p)
+		}
+	}
+}
